@@ -130,6 +130,8 @@ fn queue_body(cap: usize, producers: usize, per: usize, close: bool) {
                             break;
                         }
                         Err(PushError::Full(_)) => {
+                            // Fewer messages than slots exist in this scenario: the queue can never be full.
+                            assert!(producers * per > cap, "[bounded] push reported a full queue although at most {} of {} slots can be occupied", producers * per - 1, cap);
                             tries += 1;
                             if tries > 3 {
                                 break;
@@ -211,6 +213,10 @@ pub fn c12() -> Vec<Item> {
         Item::new("queue/cap3/2x2", 1, 3, || queue_body(3, 2, 2, false)),
         Item::new("queue/cap1/2x1/close", 2, 4, || queue_body(1, 2, 1, true)),
         Item::new("queue/cap2/2x1/close", 2, 3, || queue_body(2, 2, 1, true)),
+        // Never full: as many slots as messages.
+        Item::new("queue/cap2/2x1/roomy", 2, 4, || queue_body(2, 2, 1, false)),
+        Item::new("queue/cap4/2x2/roomy", 2, 3, || queue_body(4, 2, 2, false)),
+        Item::new("queue/cap3/3x1/roomy", 2, 3, || queue_body(3, 3, 1, false)),
         Item::new("queue/cap2/3x1", 2, 3, || queue_body(2, 3, 1, false)).thorough(),
     ]
 }
